@@ -27,12 +27,13 @@ PINNED = [
     ("F16", '<start> ::= (<a>?)* "c"\n<a> ::= "x"?\n', "xc", "complete"),
     ("F16", '<start> ::= <a>*\n<a> ::= <b>*\n<b> ::= "y"\n', "y", "complete"),
     ("F16", '<start> ::= <l>\n<l> ::= <l> <l> | "a" | ""\n', "a", "complete"),
+    ("F16", '<start> ::= <e> "."\n<e> ::= <e> <o> | "x"\n<o> ::= "y"?\n', "x", "prefix"),
     ("F17", '<start> ::= "a" ("b"? "c")+ "z"?\n', "a", "prefix"),
     ("F29", '<start> ::= ("e" | r"[01]")+\n', "1", "prefix"),
 ]
 
 
-class Hang(Exception):
+class Hang(BaseException):
     pass
 
 
@@ -68,6 +69,11 @@ def _run_case(args):
         return orig_add(self, state)
     Column.add = add
     out = []
+
+    def on_alarm(signum, frame):      # loops that admit nothing (walks over the chart) are caught by CPU time alone
+        raise Hang()
+    import signal
+    old_handler = signal.signal(signal.SIGVTALRM, on_alarm)
     try:
         try:
             f = make(spec)
@@ -77,6 +83,8 @@ def _run_case(args):
             inp = real_input(w)
             if inp is None:
                 continue
+            if sum(1 for o_ in out if o_[2] == "hang") >= 3:
+                break       # three requests of this grammar did not finish: enough to report, keep the run short
             cols = 8 * len(inp) + 1
             budget = max(200000, 1000 * nitems * (cols + 1) // 8)
             modes = [("first", ParsingMode.COMPLETE)]
@@ -87,6 +95,7 @@ def _run_case(args):
                 t0 = time.process_time()
                 counter[0], counter[1], counter[2] = 0, budget, t0
                 verdict = "ok"
+                signal.setitimer(signal.ITIMER_VIRTUAL, cpu_limit * 1.5)
                 try:
                     gen_ = f.grammar.parse_forest(inp, start, mode=mode)
                     k = 0
@@ -109,8 +118,12 @@ def _run_case(args):
                     f = make(spec)
                 except Exception as e:  # noqa  (raising is fine: "returns or raises")
                     verdict = "raised:" + type(e).__name__
+                finally:
+                    signal.setitimer(signal.ITIMER_VIRTUAL, 0)
                 out.append((repr(inp), name, verdict, counter[0]))
     finally:
+        signal.setitimer(signal.ITIMER_VIRTUAL, 0)
+        signal.signal(signal.SIGVTALRM, old_handler)
         Column.add = orig_add
     return out
 
@@ -128,10 +141,61 @@ TEMPLATES = [
 ]
 
 
+def rec_family():
+    """recursion (left / right / nested) x what follows the recursive call (a nullable symbol, an operator, both) x the
+    shape of the nullable symbol x the operand (a literal, a nullable prefix, a length-prefixed field): all combinations"""
+    out = []
+    recs = [('<e> ::= <e> %(X)s | %(B)s', "left"), ('<e> ::= %(B)s %(X)s <e> | %(B)s', "right"), ('<e> ::= "(" <e> ")" %(X)s | %(B)s', "nested")]
+    tails = ['"+" <t>', '<o>', '<o> "+" <t>', '<t> <o>', '<o> <o>']
+    bases = ['"x"', '<t>']
+    os_ = ['"y"?', '"" | "y"', '"y"{0,2}', 'r"y?"']
+    ts = ['"x"', '<o> "x"', '<len> <d>{int(<len>)}\n<len> ::= "1" | "2"\n<d> ::= "7"']
+    starts = ['<e> "."', '<o> <e>']
+    for (r, rname) in recs:
+        for X in tails:
+            for B in bases:
+                for o in os_:
+                    for t in ts:
+                        for st in starts:
+                            spec = "<start> ::= %s\n%s\n<o> ::= %s\n<t> ::= %s\n" % (st, r % {"X": X, "B": B}, o, t)
+                            # <e> => <e> <o> => <e>: a cyclic grammar (every word has infinitely many derivations).  Its
+                            # whole prefix-mode forest is endless (finding F16, pinned below); first tree, complete-mode
+                            # forest and first prefix tree are requested.
+                            cyclic = rname == "left" and X in ('<o>', '<o> <o>')
+                            out.append((spec, cyclic))
+    return out
+
+
+def _family_words(args):
+    """members produced by the grammar's own generator plus random strings over the alphabet"""
+    from harness.fan import make, quiet, normalise
+    spec, seed = args
+    quiet()
+    normalise(seed)
+    rnd = random.Random(seed)
+    words = set()
+    try:
+        f = make(spec)
+        for _ in range(14):
+            w = str(f.grammar.fuzz("<start>", max_nodes=rnd.choice([8, 14, 24])))
+            if len(w) <= 9:
+                words.add(w)
+    except Exception:  # noqa
+        pass
+    alpha = "xy+().127"
+    for n in range(0, 6):
+        for _ in range(3):
+            words.add("".join(rnd.choice(alpha) for _ in range(n)))
+    return sorted(words)
+
+
 def run(tier, seed):
     rep = Report(PROP, tier, seed, "model_checking")
     expect = {"star_spec": None, "plus_prefix_spec": None, "left_spec": None, "plus_full_impl": None,
-              "star_impl": "Bounded", "plus_prefix_impl": "Bounded", "left_impl": "Bounded"}
+              "star_impl": "Bounded", "plus_prefix_impl": "Bounded", "left_impl": "Bounded",
+              # a nullable symbol expected again after it has been completed (F38) and the three ways predict can treat it
+              "twice_never": "AcceptsAtEnd", "twice_guarded": None, "leftopt_always": "Bounded", "leftopt_guarded": None,
+              "leftopt_spec": None}
     for cfg, want in expect.items():
         r = run_tlc("MC_Earley", "MC_Earley_" + cfg, workers=1, timeout=300)
         if r.violated != want:
@@ -155,6 +219,11 @@ def run(tier, seed):
             for _ in range(12):
                 words.add("".join(rnd.choice(alpha) for _ in range(n)))
         jobs.append((spec, "<start>", sorted(words), 60, {}, 20.0))
+    fam = rec_family()
+    rnd.shuffle(fam)
+    fam = fam[:48] if tier == "quick" else fam
+    for (spec, cyclic), words in zip(fam, pmap(_family_words, [(s_[0], seed + i) for i, s_ in enumerate(fam)])):
+        jobs.append((spec, "<start>", words, 80, {}, 20.0, not cyclic))
     total = 0
     maxadm = 0
     for job, res in zip(jobs, pmap(_run_case, jobs)):
